@@ -1,5 +1,6 @@
 """FFT Functions with proper dispatching for Dask Arrays."""
 
+import numbers
 import scipy.fft
 from functools import singledispatch
 import dask.array as da
@@ -44,10 +45,13 @@ def __getattr__(name):
         if name.endswith("fftn"):
             s = kwargs.get("s", args[1] if len(args) > 1 else None)
             axes = kwargs.get("axes", args[2] if len(args) > 2 else None)
+            # scipy takes a single length / axis as a plain integer, too
+            s = (s,) if isinstance(s, numbers.Integral) else s
+            axes = (axes,) if isinstance(axes, numbers.Integral) else axes
             if s is not None and axes is None:
                 axes = tuple(range(-len(s), 0))
-                args = (args[0], s, axes) + tuple(args[3:])
-                kwargs = {k: v for k, v in kwargs.items() if k not in ("s", "axes")}
+            args = (args[0], s, axes) + tuple(args[3:])
+            kwargs = {k: v for k, v in kwargs.items() if k not in ("s", "axes")}
 
         wrapped_func = da.fft.fft_wrap(_fft_func)
         return wrapped_func(*args, **kwargs)
